@@ -51,4 +51,67 @@ WitnessesOK(M, M0, vab, vcd, w, wn, g, q1, q2, P, P0, R, R0) ==
         Violated(M, vab, vcd, i) =>
            /\ ~IsNeg(g[i]) /\ Approx(Sq(g[i]), Mul(a, b), 2, 2, Mul(a, b))
            /\ Approx(Mul(q1[i], a), g[i], 2, 2, g[i]) /\ Approx(Mul(q2[i], b), g[i], 2, 2, g[i])
+(***************************************************************************)
+(* The line-search machine of MC_LSML followed on a RECORDED call history  *)
+(* of a real fit (growth of the specification, clause prefix G12).         *)
+(* calls[i] = [kind |-> "loss" | "grad", M (the metric the solver passed),  *)
+(*             val (the loss returned / the Frobenius norm the solver took  *)
+(*             of the gradient), G (the gradient returned, <<>> for loss),  *)
+(*             noclip (harness hint: the trial was not clipped by the PSD   *)
+(*             projection)].  Protocol of the implementation:               *)
+(*   loss(prior);  per iteration it = 1..max_iter:  grad(cur);  stop when   *)
+(*   its norm < tol;  ten loss(trial_k), trial_k = Proj(cur - s_k/norm * G) *)
+(*   on the documented grid s_k = 10^(-10 + 10 k / 9);  the STRICTLY best    *)
+(*   trial below the best loss so far becomes cur;  stop when there is none. *)
+(* The comparisons are those the code makes, on the floats it computed.     *)
+(***************************************************************************)
+NTrials == 10
+RECURSIVE LsTrials(_, _, _, _, _, _, _, _)
+\* scans the ten trials p+1..p+10 of one iteration: returns <<best index or 0, best loss, on-grid ok>>
+LsTrials(c, steps, p, k, cur, gn, G, acc) ==
+  IF k > NTrials THEN acc
+  ELSE LET t == c[p + k]
+           better == Lt(t.val, acc[2])
+           onGrid == ~t.noclip \/
+                     \A i \in 1..Len(cur) : \A j \in 1..Len(cur) :
+                        Leq(Abs(Sub(Mul(gn, Sub(cur[i][j], t.M[i][j])), Mul(steps[k], G[i][j]))),
+                            Add(Shift(Mul(steps[k], MaxAbsM(G)), -2), Shift(Mul(gn, Add(MaxAbsM(cur), One)), -3)))
+       IN LsTrials(c, steps, p, k + 1, cur, gn, G,
+                   <<IF better THEN k ELSE acc[1], IF better THEN t.val ELSE acc[2], acc[3] /\ onGrid, acc[4] /\ t.kind = "loss">>)
+
+RECURSIVE LsRun(_, _, _, _, _, _)
+\* at an iteration boundary: p = next call, cur = current metric, sb = best loss so far, it = iterations started
+LsRun(ev, p, cur, sb, it, acc) ==
+  LET c == ev.calls  n == Len(c) IN
+  IF it = ev.max_iter
+  THEN [fails |-> acc \cup (IF p = n + 1 THEN {} ELSE {"G12.history_follows_the_line_search_machine"}), cur |-> cur, it |-> it]
+  ELSE IF p > n \/ c[p].kind # "grad" \/ c[p].M # cur
+  THEN [fails |-> acc \cup {"G12.history_follows_the_line_search_machine"}, cur |-> cur, it |-> it]
+  ELSE LET g == c[p]
+           normOK == Approx(Sq(g.val), DM!Frob2(g.G), 2, 2, DM!Frob2(g.G))
+           acc1 == acc \cup (IF normOK THEN {} ELSE {"G12.step_is_normalised_by_the_gradient_norm"})
+       IN IF Lt(g.val, ev.tol)
+          THEN [fails |-> acc1 \cup (IF p = n THEN {} ELSE {"G12.history_follows_the_line_search_machine"}), cur |-> cur, it |-> it + 1]
+          ELSE IF p + NTrials > n
+          THEN [fails |-> acc1 \cup {"G12.history_follows_the_line_search_machine"}, cur |-> cur, it |-> it + 1]
+          ELSE LET r == LsTrials(c, ev.steps, p, 1, cur, g.val, g.G, <<0, sb, TRUE, TRUE>>)
+                   acc2 == acc1 \cup (IF r[3] THEN {} ELSE {"G12.trial_points_are_on_the_documented_step_grid"})
+                                \cup (IF r[4] THEN {} ELSE {"G12.history_follows_the_line_search_machine"})
+               IN IF r[1] = 0
+                  THEN [fails |-> acc2 \cup (IF p + NTrials = n THEN {} ELSE {"G12.history_follows_the_line_search_machine"}),
+                        cur |-> cur, it |-> it + 1]
+                  ELSE LsRun(ev, p + NTrials + 1, c[p + r[1]].M, r[2], it + 1, acc2)
+
+LineSearchFails(ev) ==
+  LET c == ev.calls
+      startOK == Len(c) >= 1 /\ c[1].kind = "loss" /\ ApproxM(c[1].M, ev.M0, 2, 2, MaxAbsM(ev.M0))
+  IN IF ~startOK THEN {"G12.search_starts_at_the_documented_prior"}
+     ELSE LET r == LsRun(ev, 2, c[1].M, c[1].val, 0, {})
+              M == DM!Gram(ev.L)
+          IN r.fails
+             \cup (IF ApproxM(M, r.cur, 2, 2, MaxAbsM(r.cur)) THEN {} ELSE {"G12.result_is_the_last_accepted_point"})
+             \cup (IF r.it = ev.n_iter THEN {} ELSE {"G12.n_iter_counts_the_iterations_started"})
+LineSearchClauses == {"G12.search_starts_at_the_documented_prior", "G12.history_follows_the_line_search_machine",
+                      "G12.step_is_normalised_by_the_gradient_norm", "G12.trial_points_are_on_the_documented_step_grid",
+                      "G12.result_is_the_last_accepted_point", "G12.n_iter_counts_the_iterations_started"}
 =============================================================================
